@@ -47,7 +47,10 @@ Proof.
 Qed.
 Print Assumptions C01_refuted_output_dirs.
 
-(* Partial 1 (executable classifiers): histories in which no action outputs a directory (defect_class) and no
+(* Partial 1 (executable classifiers): histories in which no action outputs a directory (defect_class), no filegroup
+   links a source DIRECTORY (fg_dir_free: the same defect - the path hash of a directory ignores entry names - reaches
+   filegroups of directories; filegroups of directories are inside C01_partial_path_inj and C03_full), no target of a
+   request uses tools (tool_free, part of step_wf; tools are covered by C03_full) and no
    build rebuilt a target with output_dirs after the post-build check (quiet_history: Engine.stale_flow evaluated
    along the history; trivially true without such targets - earlier builds of the history may even have used the
    cache).  The conclusion covers the discovered outputs of output_dirs targets (all_outs_of). *)
@@ -55,6 +58,7 @@ Theorem C01_partial :
   forall (h : list hstep) (r : repo) (req : list str),
     wf_history (h ++ [HBuild false r req]) ->
     (forall t, In t (history_targets (h ++ [HBuild false r req])) -> defect_class t = None) ->
+    fg_dir_free (h ++ [HBuild false r req]) = true ->
     quiet_history (h ++ [HBuild false r req]) empty_store = true ->
     let incr := plz_build false r req (run_history h empty_store) in
     let clean := plz_build false r req empty_store in
@@ -66,7 +70,7 @@ Proof. exact (incremental_is_clean_files false). Qed.
 Print Assumptions C01_partial.
 
 (* Partial 2 (path_inj as an explicit hypothesis): for ANY class `good` of trees that contains the source
-   files, is closed under the builds of the history (Engine.result) and on which the path-hash stream is injective,
+   files and the source directories linked by filegroups (history_fg_srcs), is closed under the builds of the history (Engine.result) and on which the path-hash stream is injective,
    and any set U of targets on which the rule key is injective: incremental = clean.  This is the theorem that a
    repaired directory hash (C09) would turn into C01_full (up to the output_dirs side condition). *)
 Theorem C01_partial_path_inj :
@@ -78,6 +82,7 @@ Theorem C01_partial_path_inj :
     forall h r req,
       forallb step_wf (h ++ [HBuild false r req]) = true ->
       (forall t, In t (history_targets (h ++ [HBuild false r req])) -> U t) ->
+      (forall n, In n (history_fg_srcs (h ++ [HBuild false r req])) -> good n) ->
       quiet_history (h ++ [HBuild false r req]) empty_store = true ->
       let incr := plz_build false r req (run_history h empty_store) in
       let clean := plz_build false r req empty_store in
@@ -97,6 +102,7 @@ Definition nv_r2 : repo := mkR [(s "p/a.txt", s "1"); (s "p/b.txt", s "3")] [nv_
 Example C01_nonvacuous :
   wf_history ([HBuild false nv_r1 [s "//p:b"]] ++ [HBuild false nv_r2 [s "//p:b"]])
   /\ (forall t, In t (history_targets ([HBuild false nv_r1 [s "//p:b"]] ++ [HBuild false nv_r2 [s "//p:b"]])) -> defect_class t = None)
+  /\ fg_dir_free ([HBuild false nv_r1 [s "//p:b"]] ++ [HBuild false nv_r2 [s "//p:b"]]) = true
   /\ quiet_history ([HBuild false nv_r1 [s "//p:b"]] ++ [HBuild false nv_r2 [s "//p:b"]]) empty_store = true
   /\ rn_log (plz_build false nv_r2 [s "//p:b"] (run_history [HBuild false nv_r1 [s "//p:b"]] empty_store)) = [s "//p:b"]
   /\ rn_log (plz_build false nv_r2 [s "//p:b"] empty_store) = [s "//p:b"; s "//p:a"]
@@ -121,6 +127,7 @@ Definition nvo_h : list hstep := [HBuild false nvo_r1 [s "//p:t"]; HBuild false 
 Example C01_nonvacuous_output_dirs :
   wf_history (nvo_h ++ [HBuild false nvo_r3 [s "//p:t"]])
   /\ (forall t, In t (history_targets (nvo_h ++ [HBuild false nvo_r3 [s "//p:t"]])) -> defect_class t = None)
+  /\ fg_dir_free (nvo_h ++ [HBuild false nvo_r3 [s "//p:t"]]) = true
   /\ quiet_history (nvo_h ++ [HBuild false nvo_r3 [s "//p:t"]]) empty_store = true
   /\ rn_log (plz_build false nvo_r3 [s "//p:t"] (run_history nvo_h empty_store)) = []
   /\ all_outs_of (rn_st (plz_build false nvo_r3 [s "//p:t"] (run_history nvo_h empty_store))) (nvo_t [s "a.txt"; s "b.txt"] (s "k2"))
